@@ -707,6 +707,43 @@ def guarded(fn, line, hout, *args):
         return [("prop", "unreadable-result", "results could not be evaluated (%s: %s); output: %s" % (type(e).__name__, str(e)[:80], hout[:120]))]
 
 
+# Candidate finding (reported to the coordinator; /repo not edited): the routines take std::log of a determinant formed as a
+# double.  For larger dimensions the determinant leaves the double range although S is perfectly conditioned (d = 170,
+# S = 0.01 I: det = 1e-340 -> 0), and the log-density comes out +inf / -inf instead of a finite number (the density inf / 0 where
+# the exact value is representable).  The real-arithmetic model has no such range, so this is a floating-point defect outside the
+# model: recorded under coverage.candidate_findings, turned into a violation with the stable key below once decided.
+DET_RANGE_IS_VIOLATION = False
+DET_RANGE_KEY = "density-determinant-out-of-double-range"
+
+
+def range_probe(binary, quick):
+    """diagonal covariances whose determinant under-/overflows a double; oracle in closed form"""
+    found, nrun = [], 0
+    for d, var in ((170, 0.01), (200, 100.0)) if quick else ((100, 0.01), (170, 0.01), (400, 0.01), (200, 100.0), (120, 1e-3)):
+        S = [[var if i == j else 0.0 for j in range(d)] for i in range(d)]
+        x = [[0.5 * math.sqrt(var) * ((i % 3) - 1)] for i in range(d)]
+        m = [0.0] * d
+        quad = sum((x[i][0] ** 2) / var for i in range(d))
+        exact = -0.5 * (d * LOG2PI + d * math.log(var) + quad)
+        lines = [" ".join(["ld", str(d), "1"] + vlib.fmt_mat_cm(x) + [hexd(v) for v in m] + vlib.fmt_mat_cm(S)),
+                 " ".join(["uvr", str(d), "1", "1", "1", "0"] + vlib.fmt_mat_cm(x) + [hexd(v) for v in m]
+                          + [hexd(0.0)] * (2 * d) + [hexd(var)])]
+        outs, _ = vlib.run_harness(binary, lines)
+        for which, o in zip(("multivariate_gaussian_log_density", "multivariate_gaussian_log_density_UVR (U = V = 0, shared 1x1 block)"), outs):
+            nrun += 1
+            t = o.split()
+            try:
+                val = unhex(t[2]) if t[0] == "ok" else float("nan")
+            except Exception:
+                val = float("nan")
+            if not (math.isfinite(val) and abs(val - exact) <= 1e-9 * abs(exact)):
+                found.append({"key": DET_RANGE_KEY, "routine": which, "input": "d = %d, S = %g * I (cond 1), mean 0, one point with entries 0.5 sigma * {-1, 0, 1}" % (d, var),
+                              "observed_log_density": repr(val), "expected_log_density": exact,
+                              "expected_density": (math.exp(exact) if exact < 709 else "above the double range"),
+                              "line": lines[0][:200] + " ..."})
+    return found, nrun
+
+
 def corpus_cases():
     out = []
     p = vlib.VERIF / "corpus" / "C15" / "cases.txt"
@@ -781,6 +818,7 @@ def run(ctx):
     hout, logs, retried = run_harness_confirmed(binary, hlines)
     dout = run_driver_parallel(dlines)
 
+    range_found, range_run = ([], 0) if ctx.replay else range_probe(binary, ctx.quick())
     stats, hist, branch = {}, {}, {}
     distinct, nontrivial = set(), set()
     corr_bad, prop_bad = [], []
@@ -857,7 +895,12 @@ def run(ctx):
         key2, what, line, h = corr_bad[0]
         ctx.violation("correspondence:" + key2, "model and implementation disagree (%d cases), no property predicate failed: %s" % (len(corr_bad), what),
                       {"harness": "h_density", "correspondence": "BFL/Model/Density.lean vs utils.h", "input_line": line, "observed": h[:2000]}, no_input=True)
+    if range_found and DET_RANGE_IS_VIOLATION:
+        f = range_found[0]
+        ctx.violation(DET_RANGE_KEY, "utils: %s: %s: log-density %s, definition gives %.17g" % (f["routine"], f["input"], f["observed_log_density"], f["expected_log_density"]),
+                      {"harness": "h_density", "input_line": f["line"], "observed": f["observed_log_density"]})
     ctx.coverage.update({
+        "candidate_findings": range_found, "determinant_range_probes": range_run,
         "evaluations": len(cases), "distinct_nontrivial": len(nontrivial & distinct),
         "rule": "direct densities: d 1..%d, batch 1..5, SPD S with prescribed spectrum (cond <= 1e6, determinants 1e-40..1e40); factorised: d = nb*bs with every "
                 "divisor bs (incl. 1 and d), k 1..d+3, V = W U^T with W identity / SPD / indefinite (S = UV + R positive definite with cond_inf <= 1e6 by rejection), "
